@@ -241,6 +241,21 @@ fn spaces(thorough: bool) -> Vec<(String, u64, String, Box<dyn Fn(u64, &mut Acc)
             }
         })));
     }
+    // (d2) fixed valid prefix + every short tail (offsets of every byte length, incl. multi-byte characters)
+    for prefix in ["2022-05-02T15:30:20", "2022-05-02T15:30:20.5"] {
+        let nt = count_strings(16, 5);
+        v.push((format!("(d2) parse_rfc3339 / from_str: {:?} + every tail of length <= 5 over TEXT_SIGMA", prefix), nt, "".into(), Box::new(move |i, acc| {
+            let s = format!("{}{}", prefix, nth_string(&TEXT_SIGMA, 5, i));
+            case_fixed(0, &s, acc);
+            case_fixed(1, &s, acc);
+        })));
+    }
+    for (which, prefix) in [(2u8, ""), (2, "2022-0"), (3, ""), (3, "15:3")] {
+        let nt = count_strings(16, 4);
+        v.push((format!("(d2) {}: {:?} + every tail of length <= 4 over TEXT_SIGMA", if which == 2 { "Date::from_str" } else { "Time::from_str" }, prefix), nt, "".into(), Box::new(move |i, acc| {
+            case_fixed(which, &format!("{}{}", prefix, nth_string(&TEXT_SIGMA, 4, i)), acc);
+        })));
+    }
     v.push(("(d) parse_rfc3339: fractions of length 1..=40 x 4 digit shapes x 3 tails".into(), 40 * 4 * 3, "".into(), Box::new(move |i, acc| {
         let len = (i / 12) as usize + 1;
         let frac = match i / 3 % 4 {
